@@ -31,6 +31,7 @@ RULE = (
 ASSUMPTIONS = [
     "continuous EVSE: max - eps <= granted <= max, eps = the tolerance the algorithm actually passes to max_feasible_rate (recorded by a harness-side wrapper)",
     "reference feasibility uses the default tolerances 1e-5 / 1e-7 the algorithms hard-code",
+    "items marked 'after': the same algorithm object has first served a complete simulation on another network with the same station ids",
     "uninterrupted charging off (the property's allocation rule is stated for lower bound 0)",
 ]
 CHUNK = 20
@@ -53,17 +54,26 @@ def worker_init():
 
 
 def bounds(tier, seed):
-    return {"nets": ["N2", "N5", "N7"], "kmax": 3 if tier == "thorough" else 2}
+    return {"nets": NETS, "kmax": 3 if tier == "thorough" else 2, "algorithm_object_reused_after_network": REUSE}
+
+
+NETS = ["N2", "N5", "N7", "N10"]
+# networks with the SAME station ids but other EVSE ratings: an algorithm object that served the first is then
+# registered with a simulation on the second
+REUSE = {"N2": "N5", "N5": "N7", "N7": "N2", "N10": "N5"}
 
 
 def space(tier, seed):
-    items = list(A.scenarios(tier, ["N2", "N5", "N7"], unint_values=(False,)))
+    items = list(A.scenarios(tier, NETS, unint_values=(False,)))
     seen = set()
     for scn in list(items):
         key = (scn["net"], repr(scn["sessions"]))
         if key not in seen:
             seen.add(key)
             items.append({"net": scn["net"], "sessions": scn["sessions"], "sched": {"kind": "unc"}, "period": 5})
+            if len(scn["sessions"]) == 2 or tier == "thorough":
+                items.append({"net": scn["net"], "sessions": scn["sessions"], "sched": {"kind": "unc"}, "period": 5, "after": REUSE[scn["net"]]})
+                items.append({"net": scn["net"], "sessions": scn["sessions"], "sched": {"kind": "greedy", "sort": "llf", "est": True, "unint": False, "inc": 1}, "period": 5, "after": REUSE[scn["net"]]})
     return items
 
 
@@ -259,7 +269,13 @@ def check_call(scn, c, ref, out, stats):
 
 def execute(scn):
     worker_init()
-    tr = A.run(scn)
+    if scn.get("after"):
+        # the algorithm object first serves a complete simulation of the same sessions on ANOTHER network
+        algo = S.make_algorithm(scn["sched"])
+        first = A.run(dict(scn, net=scn["after"]), algo=algo)
+        tr = A.run(scn, algo=algo)
+    else:
+        tr = A.run(scn)
     viol = []
     ref = Ref(scn["net"])
     out = lambda sig, what, o=None, e=None: viol.append((sig, what, o, e))
